@@ -86,11 +86,15 @@ package node
 //@   ensures[C09.verify] result == nil ==> s.SkipCommKeysVerification || (fsmInstance.dump != nil && fsmInstance.dump.Payload != nil && message.SenderAddr in fsmInstance.dump.Payload.PubKeys && edValid(content(fsmInstance.dump.Payload.PubKeys[message.SenderAddr]), content(message.Data), content(message.Signature)))
 
 // ---- handlers of verified messages: every durable effect is behind the guard
+// a broadcast reconstructed signature is stored for the round and the sender of the board message that carried it,
+// whatever its payload says
 //@ func (*BaseNodeService).processSignature
 //@   requires s != nil
 //@   requires[C09.guard] $mayWrite || $initEvent
 //@   pure
 //@   modifies $fx
+//@   loop 0 invariant[C08.sig.round] forall j int :: 0 <= j && j <= $i ==> signatures[j].DKGRoundID == message.DkgRoundID && signatures[j].Username == message.SenderAddr
+//@   assert@call SaveSignatures[C08.sig.round] forall j int :: 0 <= j && j < len(signature) ==> signature[j].DKGRoundID == message.DkgRoundID && signature[j].Username == message.SenderAddr
 
 // what the node stores next to the future signature is the common expansion of the proposal's tasks (C03)
 //@ func (*BaseNodeService).processSignatureProposal
@@ -274,7 +278,9 @@ package node
 //@   requires signingFSM != nil
 //@   modifies *
 //@   assert@call TasksToMessages[C03.reconstruct.expansion] msgs == loc(signingTasks)
-//@   assert@call recoverFullSign[C03.reconstruct.payload] msg == loc(messages)[loc(messageID)].Payload && sigShares == loc(messagePartialSignatures)
+//@   loop 2 invariant[C03.reconstruct.index] forall k string :: k in messages ==> (exists j int :: 0 <= j && j <= $i && messagesPayload[j].MessageID == k && messages[k] == messagesPayload[j])
+//@   loop 3 invariant[C03.reconstruct.index] forall k string :: k in messages ==> (exists j int :: 0 <= j && j < len(messagesPayload) && messagesPayload[j].MessageID == k && messages[k] == messagesPayload[j])
+//@   assert@call recoverFullSign[C03.reconstruct.payload] msg == loc(messages)[loc(messageID)].Payload && sigShares == loc(messagePartialSignatures) && ((loc(messageID) in loc(messages)) ==> (exists j int :: 0 <= j && j < len(loc(messagesPayload)) && loc(messagesPayload)[j].MessageID == loc(messageID) && msg == loc(messagesPayload)[j].Payload))
 
 //@ func (github.com/lidofinance/dc4bc/client/services/operation.OperationService).GetOperations
 //@   assumed
